@@ -64,7 +64,7 @@ class Driver:
         A = self.A
         self.fn = {src: [(d, getattr(A, '%s2%s' % (src, d))) for d in ALL_DST if hasattr(A, '%s2%s' % (src, d))]
                    for src in NUM_ABBR}
-        self.methods = {c: [m for m in ALL_DST if m in getattr(A, c).__dict__] for c in ax.ANGLE_CLASSES}
+        self.methods = {c: [m for m in ALL_DST if core.repo_method(getattr(A, c), m)[0] is not None or hasattr(getattr(getattr(A, c), m, None), '__wrapped__')] for c in ax.ANGLE_CLASSES}
 
     HOSTILE = [('hp2dec', 12.6), ('hp2dec', 12.0075), ('hp2dec', -0.61), ('hp2dms', 1.99), ('hp2ddm', 5.6), ('hp2gon', 7.0061),
                ('hp2rad', 3.7), ('hp2dec_v', [1.3, 1.7, 2.1]), ('hp2dec', 'x'), ('hp2dec', None), ('dec2hp', 'x'), ('dec2hp', float('nan')),
@@ -406,7 +406,7 @@ def edges(A):
                 if hasattr(A, '%s2%s' % (s, d)) or (s, d) in (('dec', 'deca'), ('hp', 'hpa'), ('gon', 'gona')):
                     outs.append(d)
             else:
-                if d in getattr(A, OBJ_ABBR[s]).__dict__:
+                if callable(getattr(getattr(A, OBJ_ABBR[s]), d, None)):
                     outs.append(d)
         e[s] = outs
     return e
